@@ -9,4 +9,5 @@ mkdir -p "$D/repo"
 cp -r /repo/src /repo/tests /repo/scripts "$D/repo/" 2>/dev/null || true
 (cd "$D/repo" && git init -q . && git add -A >/dev/null 2>&1 && git -c user.email=a@b -c user.name=x commit -qm base >/dev/null)
 (cd "$D/repo" && git apply "$PATCH")
-PFST_REPO="$D/repo" /verif/check "$@"
+mkdir -p "$D/out"
+PFST_REPO="$D/repo" PYVC_OUTDIR="$D/out" /verif/check "$@"
